@@ -106,6 +106,7 @@ type c01Env struct {
 	meta    string
 	phys    physical.Backend
 	inner   physical.Backend
+	probe   *kit.Probe
 	b       SecurityBarrier
 	aes     *AESGCMBarrier
 	root    []byte
@@ -129,13 +130,8 @@ func c01NewEnv(t *testing.T, cfg int, rng *kit.Rand) *c01Env {
 	c := c01Configs[cfg%len(c01Configs)]
 	e := &c01Env{cfg: cfg, tx: c.tx, nonces: map[string]string{}, model: map[string][]byte{}}
 	e.id = fmt.Sprintf("cfg%d(tx=%v,ns=%v,sealkey=%v)", cfg, c.tx, c.ns, c.seal)
-	e.phys, _ = kit.NewInmemProbe(c.tx)
-	switch p := e.phys.(type) {
-	case *kit.TxProbeBackend:
-		e.inner = p.Inner()
-	case *kit.ProbeBackend:
-		e.inner = p.Inner()
-	}
+	e.phys, e.probe = kit.NewInmemProbe(c.tx)
+	e.inner = e.probe.Inner()
 	if c.ns {
 		u := hex.EncodeToString(rng.Bytes(16))
 		uuid := u[:8] + "-" + u[8:12] + "-" + u[12:16] + "-" + u[16:20] + "-" + u[20:]
@@ -715,13 +711,7 @@ func (e *c01Env) checkMeta(r *kit.Result, caseID, stage string) *c01Keyring {
 // audit walks the whole physical store: every record is either a meta record or opens to the model value;
 // no key material or plaintext value appears anywhere.
 func (e *c01Env) audit(r *kit.Result, caseID string, kr *c01Keyring) {
-	var snap map[string][]byte
-	switch p := e.phys.(type) {
-	case *kit.TxProbeBackend:
-		snap = p.Snapshot()
-	case *kit.ProbeBackend:
-		snap = p.Snapshot()
-	}
+	snap := e.probe.Snapshot()
 	keys := make([]string, 0, len(snap))
 	for k := range snap {
 		keys = append(keys, k)
@@ -979,8 +969,9 @@ func TestVerif_C01_RecordShape(t *testing.T) {
 // ---------------------------------------------------------------- O2: tamper oracle
 
 type c01Mut struct {
-	Kind string // class of mutation (for distinct counting)
-	Desc string
+	Kind  string // class of mutation (for distinct counting)
+	Desc  string
+	Allow []byte // a value that is an acceptable answer besides an error (relocated legacy v1 record), nil = none
 }
 
 // forEachMutation calls f with every mutated image of rec.Stored (the buffer is reused between calls).
@@ -992,7 +983,7 @@ func (e *c01Env) forEachMutation(rng *kit.Rand, rec *c01Rec, others []*c01Rec, k
 		if bytes.Equal(data, st) {
 			return true
 		}
-		return f(c01Mut{kind, desc}, data)
+		return f(c01Mut{Kind: kind, Desc: desc}, data)
 	}
 	region := func(i int) string {
 		switch {
@@ -1190,7 +1181,13 @@ func (e *c01Env) forEachMutation(rng *kit.Rand, rec *c01Rec, others []*c01Rec, k
 			return
 		}
 		buf = append(append(buf[:0], st[:c01Hdr]...), os[c01Hdr:]...)
-		if !emit("splice", fmt.Sprintf("own header with nonce+ciphertext+tag of record %d", o.Idx), buf) {
+		if bytes.Equal(buf, os) && os[4] == 1 {
+			// same header: this is record o itself moved to this key; o is a legacy v1 record, which the
+			// property documents as authenticated but relocatable, so o's value (or an error) is acceptable
+			if !f(c01Mut{Kind: "transplant-into-legacy", Desc: fmt.Sprintf("replace by legacy v1 record %d of the same term", o.Idx), Allow: o.Val}, buf) {
+				return
+			}
+		} else if !emit("splice", fmt.Sprintf("own header with nonce+ciphertext+tag of record %d", o.Idx), buf) {
 			return
 		}
 	}
@@ -1198,7 +1195,7 @@ func (e *c01Env) forEachMutation(rng *kit.Rand, rec *c01Rec, others []*c01Rec, k
 
 // c01Judge classifies the outcome of reading a tampered / transplanted record.
 // allowValue: the original value is an acceptable answer (transplanted legacy record).
-func c01Judge(r *kit.Result, caseID, what string, x c01Read, orig []byte, allowValue bool, w map[string]any) {
+func c01Judge(r *kit.Result, caseID, what string, x c01Read, orig []byte, allowValue bool, allow []byte, w map[string]any) {
 	r.Eval(1)
 	r.Count("reads_judged", 1)
 	r.Count("reads_via_"+x.Path, 1)
@@ -1216,6 +1213,8 @@ func c01Judge(r *kit.Result, caseID, what string, x c01Read, orig []byte, allowV
 		r.Count("rejected_with_error", 1)
 	case !x.Found:
 		viol("C01-tamper-read-as-absent", "an altered record read as absent (nil entry, nil error)")
+	case allow != nil && bytes.Equal(x.Val, allow):
+		r.Count("legacy_v1_relocated_value_returned", 1)
 	case bytes.Equal(x.Val, orig):
 		if allowValue {
 			r.Count("legacy_v1_relocated_value_returned", 1)
@@ -1252,7 +1251,7 @@ func (e *c01Env) buildRecords(t *testing.T, rng *kit.Rand, n, nTerms, big int) [
 			shape, val = "binary", rng.Bytes(150)
 		}
 		ver := e.defVer
-		if i%4 == 3 {
+		if i%4 == 2 {
 			ver = 1
 		}
 		e.aes.currentAESGCMVersionByte = ver
@@ -1339,9 +1338,9 @@ func TestVerif_C01_Tamper(t *testing.T) {
 					mw[k] = v
 				}
 				for _, rd := range readers {
-					c01Judge(r, caseID, m.Desc, rd(), rec.Val, false, mw)
+					c01Judge(r, caseID, m.Desc, rd(), rec.Val, false, m.Allow, mw)
 				}
-				c01Judge(r, caseID, m.Desc, e.decryptAPI(rec.Key, data), rec.Val, false, mw)
+				c01Judge(r, caseID, m.Desc, e.decryptAPI(rec.Key, data), rec.Val, false, m.Allow, mw)
 				if r.NViolations() > 60 {
 					stop = true
 					return false
@@ -1393,9 +1392,9 @@ func TestVerif_C01_Tamper(t *testing.T) {
 					mw[k] = v
 				}
 				for _, rd := range e.readers(tg.key) {
-					c01Judge(r, caseID, desc, rd(), rec.Val, rec.Ver == 1, mw)
+					c01Judge(r, caseID, desc, rd(), rec.Val, rec.Ver == 1, nil, mw)
 				}
-				c01Judge(r, caseID, desc, e.decryptAPI(tg.key, rec.Stored), rec.Val, rec.Ver == 1, mw)
+				c01Judge(r, caseID, desc, e.decryptAPI(tg.key, rec.Stored), rec.Val, rec.Ver == 1, nil, mw)
 				if saved != nil {
 					e.plant(tg.key, saved)
 				} else {
@@ -1438,10 +1437,9 @@ func TestVerif_C01_Tamper(t *testing.T) {
 	r.Require("reads_via_barrier.Get", 10000)
 	r.Require("reads_via_view.Get", 10000)
 	r.Require("reads_via_barrier.Decrypt", 10000)
-	if shards <= 2 {
-		r.Require("reads_via_tx.Get", 5000)
-		r.Require("reads_via_viewtx.Get", 5000)
-	}
+	r.Require("reads_via_tx.Get", 5000)
+	r.Require("reads_via_rotx.Get", 5000)
+	r.Require("reads_via_viewtx.Get", 5000)
 }
 
 // tamperMeta alters the keyring and root-key records and checks that unsealing / reloading refuses them.
